@@ -42,6 +42,16 @@ def main(argv: list[str]) -> int:
         if not b.driver_ok:
             print("tooling failure: the model or its driver does not build\n" + b.log[-3000:])
             return 2
+        # everything below runs the code under test in this process: bound the address space, so that a change that makes
+        # it allocate without limit ends in a MemoryError here instead of taking the machine down
+        try:
+            import resource
+            soft, hard = resource.getrlimit(resource.RLIMIT_AS)
+            limit = 16 << 30
+            if hard == resource.RLIM_INFINITY or hard > limit:
+                resource.setrlimit(resource.RLIMIT_AS, (limit, hard))
+        except Exception:  # noqa: BLE001
+            pass
         cov = None
         if ctx.tier == "thorough" or os.environ.get("VERIF_COVERAGE") == "1":
             try:
